@@ -170,7 +170,7 @@ class SetupStub(SetupPhaseInstruction):
         kind = self.plan.at(('setup', 'main', self.pos), environment, settings=settings,
                             settings_builder=settings_builder, os_services=os_services)
         if self.pos == 0 and kind == OK:
-            settings_builder.stdin = StdinStub(self.plan)
+            settings_builder.stdin = StdinStub(self.plan, environment)
         return _sh(kind)
 
     def validate_post_setup(self, environment):
@@ -181,11 +181,12 @@ class StdinStub(AdvWValidation):
     """The stdin of the action to check, as stored in the settings by the first setup stub:
     its validation is the step act/validate-exe-input (cell ('act', 'exe-input', 0))."""
 
-    def __init__(self, plan: Plan):
+    def __init__(self, plan: Plan, environment=None):
         self.plan = plan
+        self.environment = environment  # of the setup step that stored the object (validate() itself is given none)
 
     def validate(self):
-        kind = self.plan.at(('act', 'exe-input', 0))
+        kind = self.plan.at(('act', 'exe-input', 0), self.environment)
         if kind == OK:
             return None
         if kind == HARD:
